@@ -6,8 +6,10 @@ package main
 
 import (
 	"flag"
+	"fmt"
 	"os"
 	"path/filepath"
+	"strings"
 )
 
 func main() {
@@ -22,8 +24,30 @@ func main() {
 		fail("%v", err)
 	}
 	for _, fam := range families {
-		writeIfChanged(filepath.Join(*out, fam.name+".lean"), header+fam.gen()+footer)
+		// a family whose declarations are no longer found fails alone: its file is left as it
+		// was and `check` reports the broken tie for the properties that import it
+		content, msg := genFamily(fam)
+		if msg != "" {
+			fmt.Printf("fact-fail %s %s\n", fam.name, strings.ReplaceAll(msg, "\n", " "))
+			continue
+		}
+		writeIfChanged(filepath.Join(*out, fam.name+".lean"), header+content+footer)
 	}
+}
+
+func genFamily(fam family) (content string, msg string) {
+	defer func() {
+		if r := recover(); r != nil {
+			if f, ok := r.(failure); ok {
+				msg = string(f)
+				return
+			}
+			msg = fmt.Sprintf("extractor panic: %v", r)
+		}
+	}()
+	inFamily = true
+	defer func() { inFamily = false }()
+	return fam.gen(), ""
 }
 
 type family struct {
